@@ -9,12 +9,34 @@ open IsoDT
 
 /-! ## Try-orders -/
 
-/-- `b` may come after `a` in a try-order: nothing `b` matches is matched by `a` — unless `a` is the very
-    same regular expression with the same expression text and type (the tables list a few forms under
-    both `basic` and `extended`); for a `complete` form it must then also be the same format. -/
+/-- First element (in list order) whose template matches: `firstMatch` / `firstMatchZ` generically. -/
+def firstBy {α : Type} (tm : α → Template) : List α → List Char → Option (α × Env)
+  | [], _ => none
+  | e :: es, s =>
+    match tmatch (tm e) s with
+    | some env => some (e, env)
+    | none => firstBy tm es s
+
+theorem firstMatch_eq (l : List Entry) (s : List Char) : firstMatch l s = firstBy Entry.tmpl l s := by
+  induction l with
+  | nil => rfl
+  | cons a l ih => simp only [firstMatch, firstBy, ih]; cases tmatch a.tmpl s <;> rfl
+
+theorem firstMatchZ_eq (l : List ZEntry) (s : List Char) : firstMatchZ l s = firstBy ZEntry.tmpl l s := by
+  induction l with
+  | nil => rfl
+  | cons a l ih => simp only [firstMatchZ, firstBy, ih]; cases tmatch a.tmpl s <;> rfl
+
+/-- `b` may come after `a` in a date try-order: nothing `b` matches is matched by `a` — unless `a` is the
+    very same regular expression with the same expression text and type (the tables list a few forms
+    under both `basic` and `extended`); for a `complete` form it must then also be the same format. -/
 def okPair (a b : Entry) : Bool :=
   shapeDisjoint a.tmpl b.tmpl ||
     (a.tmpl = b.tmpl && a.expr = b.expr && a.typ = b.typ && (a.fmt = b.fmt || b.typ != .complete))
+
+/-- The same for time entries (only the expression text is returned by `get_time_info`). -/
+def okPairT (a b : Entry) : Bool :=
+  shapeDisjoint a.tmpl b.tmpl || (a.tmpl = b.tmpl && a.expr = b.expr)
 
 def okPairZ (a b : ZEntry) : Bool :=
   shapeDisjoint a.tmpl b.tmpl || (a.tmpl = b.tmpl && a.expr = b.expr)
@@ -23,6 +45,11 @@ def okPairZ (a b : ZEntry) : Bool :=
 def allAfter {α : Type} (ok : α → α → Bool) : List α → Bool
   | [] => true
   | a :: l => l.all (ok a) && allAfter ok l
+
+/-- Every element listed before (the first occurrence of) `e` is `ok` with `e`. -/
+def prec {α : Type} [DecidableEq α] (ok : α → α → Bool) : List α → α → Bool
+  | [], _ => true
+  | a :: l, e => if a = e then true else ok a e && prec ok l e
 
 theorem allAfter_filter {α : Type} (ok : α → α → Bool) (p : α → Bool) (l : List α)
     (h : allAfter ok l = true) : allAfter ok (l.filter p) = true := by
@@ -36,7 +63,21 @@ theorem allAfter_filter {α : Type} (ok : α → α → Bool) (p : α → Bool) 
     · simp only [List.filter_cons, hp]
       exact ih h.2
 
-/-- The pairs that are not `ok`, as (earlier expression, later expression). -/
+theorem prec_of_allAfter {α : Type} [DecidableEq α] (ok : α → α → Bool) (l : List α)
+    (h : allAfter ok l = true) (e : α) (he : e ∈ l) : prec ok l e = true := by
+  induction l with
+  | nil => rfl
+  | cons a l ih =>
+    simp only [allAfter, Bool.and_eq_true, List.all_eq_true] at h
+    simp only [prec]
+    split
+    · rfl
+    · rename_i hne
+      rcases List.mem_cons.mp he with rfl | hel
+      · exact absurd rfl hne
+      · simp [h.1 e hel, ih h.2 hel]
+
+/-- The pairs of a date try-order that are not `ok`, as (earlier expression, later expression). -/
 def overlaps : List Entry → List (List Char × List Char)
   | [] => []
   | a :: l => ((l.filter fun b => !okPair a b).map fun b => (a.expr, b.expr)) ++ overlaps l
@@ -55,47 +96,56 @@ theorem allAfter_of_overlaps_nil (l : List Entry) (h : overlaps l = []) : allAft
       rw [h.1] at this
       exact absurd this (by simp)
 
-/-- **First match**: in a try-order whose pairs are all `ok`, a text matched by the regular expression of
-    a listed entry is decoded by that regular expression (possibly by an identical earlier copy). -/
-theorem firstMatch_ok (l : List Entry) (hok : allAfter okPair l = true)
-    (hwf : ∀ e ∈ l, wf e.tmpl = true) (e : Entry) (he : e ∈ l) (s : List Char) (env : Env)
-    (hm : tmatch e.tmpl s = some env) :
-    ∃ e', e' ∈ l ∧ firstMatch l s = some (e', env) ∧ e'.tmpl = e.tmpl ∧ e'.expr = e.expr ∧
-      e'.typ = e.typ ∧ (e.typ = .complete → e'.fmt = e.fmt) := by
+/-- **First match**, generically: if every element tried before `e` is `ok` with `e` — i.e. cannot match
+    anything `e` matches, or is the same regular expression and related to `e` by `R` — then a text
+    `e` matches is decoded by `e`'s regular expression, by an element related to `e`. -/
+theorem firstBy_prec {α : Type} [DecidableEq α] (tm : α → Template) (ok : α → α → Bool)
+    (R : α → α → Prop)
+    (hok : ∀ a e, ok a e = true → shapeDisjoint (tm a) (tm e) = true ∨ (tm a = tm e ∧ R a e))
+    (hR : ∀ e, R e e) (l : List α) (hwf : ∀ x ∈ l, wf (tm x) = true) (e : α) (he : e ∈ l)
+    (hp : prec ok l e = true) (s : List Char) (env : Env) (hm : tmatch (tm e) s = some env) :
+    ∃ e', e' ∈ l ∧ firstBy tm l s = some (e', env) ∧ tm e' = tm e ∧ R e' e := by
   induction l with
   | nil => simp at he
   | cons a l ih =>
-    simp only [allAfter, Bool.and_eq_true, List.all_eq_true] at hok
-    rcases List.mem_cons.mp he with rfl | hel
-    · exact ⟨e, List.mem_cons_self, by simp [firstMatch, hm], rfl, rfl, rfl, fun _ => rfl⟩
-    · have hp := hok.1 e hel
-      simp only [okPair, Bool.or_eq_true, Bool.and_eq_true, decide_eq_true_eq] at hp
-      rcases hp with hd | ⟨⟨⟨h1, h2⟩, h3⟩, h4⟩
-      · have hn := shapeDisjoint_sound a.tmpl e.tmpl (hwf a List.mem_cons_self) (hwf e he) hd s env hm
-        obtain ⟨e', m1, m2, m3⟩ := ih hok.2 (fun x hx => hwf x (List.mem_cons_of_mem _ hx)) hel
-        exact ⟨e', List.mem_cons_of_mem _ m1, by simp [firstMatch, hn, m2], m3⟩
-      · refine ⟨a, List.mem_cons_self, by simp [firstMatch, h1, hm], h1, h2, h3, fun hc => ?_⟩
-        rcases h4 with h4 | h4
-        · exact h4
-        · simp [hc] at h4
+    simp only [prec] at hp
+    by_cases hae : a = e
+    · subst hae
+      exact ⟨a, List.mem_cons_self, by simp [firstBy, hm], rfl, hR a⟩
+    · simp only [hae, if_false, Bool.and_eq_true] at hp
+      have hel : e ∈ l := by
+        rcases List.mem_cons.mp he with h | h
+        · exact absurd h.symm hae
+        · exact h
+      rcases hok a e hp.1 with hd | ⟨h1, h2⟩
+      · have hn := shapeDisjoint_sound (tm a) (tm e) (hwf a List.mem_cons_self) (hwf e he) hd s env hm
+        obtain ⟨e', m1, m2, m3⟩ := ih (fun x hx => hwf x (List.mem_cons_of_mem _ hx)) hel hp.2
+        exact ⟨e', List.mem_cons_of_mem _ m1, by simp [firstBy, hn, m2], m3⟩
+      · exact ⟨a, List.mem_cons_self, by simp [firstBy, h1, hm], h1, h2⟩
 
-theorem firstMatchZ_ok (l : List ZEntry) (hok : allAfter okPairZ l = true)
-    (hwf : ∀ e ∈ l, wf e.tmpl = true) (e : ZEntry) (he : e ∈ l) (s : List Char) (env : Env)
-    (hm : tmatch e.tmpl s = some env) :
-    ∃ e', e' ∈ l ∧ firstMatchZ l s = some (e', env) ∧ e'.tmpl = e.tmpl ∧ e'.expr = e.expr := by
-  induction l with
-  | nil => simp at he
-  | cons a l ih =>
-    simp only [allAfter, Bool.and_eq_true, List.all_eq_true] at hok
-    rcases List.mem_cons.mp he with rfl | hel
-    · exact ⟨e, List.mem_cons_self, by simp [firstMatchZ, hm], rfl, rfl⟩
-    · have hp := hok.1 e hel
-      simp only [okPairZ, Bool.or_eq_true, Bool.and_eq_true, decide_eq_true_eq] at hp
-      rcases hp with hd | ⟨h1, h2⟩
-      · have hn := shapeDisjoint_sound a.tmpl e.tmpl (hwf a List.mem_cons_self) (hwf e he) hd s env hm
-        obtain ⟨e', m1, m2, m3⟩ := ih hok.2 (fun x hx => hwf x (List.mem_cons_of_mem _ hx)) hel
-        exact ⟨e', List.mem_cons_of_mem _ m1, by simp [firstMatchZ, hn, m2], m3⟩
-      · exact ⟨a, List.mem_cons_self, by simp [firstMatchZ, h1, hm], h1, h2⟩
+/-- What an entry found in a date try-order shares with the entry the text was rendered from. -/
+def SameDate (a e : Entry) : Prop :=
+  a.expr = e.expr ∧ a.typ = e.typ ∧ (e.typ = .complete → a.fmt = e.fmt)
+
+theorem okPair_spec (a e : Entry) (h : okPair a e = true) :
+    shapeDisjoint a.tmpl e.tmpl = true ∨ (a.tmpl = e.tmpl ∧ SameDate a e) := by
+  simp only [okPair, Bool.or_eq_true, Bool.and_eq_true, decide_eq_true_eq] at h
+  rcases h with hd | ⟨⟨⟨h1, h2⟩, h3⟩, h4⟩
+  · exact Or.inl hd
+  · refine Or.inr ⟨h1, h2, h3, fun hc => ?_⟩
+    rcases h4 with h4 | h4
+    · exact h4
+    · simp [hc] at h4
+
+theorem okPairT_spec (a e : Entry) (h : okPairT a e = true) :
+    shapeDisjoint a.tmpl e.tmpl = true ∨ (a.tmpl = e.tmpl ∧ a.expr = e.expr) := by
+  simp only [okPairT, Bool.or_eq_true, Bool.and_eq_true, decide_eq_true_eq] at h
+  exact h
+
+theorem okPairZ_spec (a e : ZEntry) (h : okPairZ a e = true) :
+    shapeDisjoint a.tmpl e.tmpl = true ∨ (a.tmpl = e.tmpl ∧ a.expr = e.expr) := by
+  simp only [okPairZ, Bool.or_eq_true, Bool.and_eq_true, decide_eq_true_eq] at h
+  exact h
 
 /-- A text no listed regular expression can match is refused. -/
 theorem firstMatch_none (l : List Entry) (s : List Char)
